@@ -133,6 +133,106 @@ func init() {
 		},
 	})
 	register(&Property{
+		ID: "C06",
+		Explanation: "Decides the structural part of `replace writes the exact splice and each mode touches only its file`: (R1) the mode table of searchReplace - NEW opens only <file>+suffix for writing, OVERWRITE loads the original into memory before the truncating open of the file itself, NOTHING writes to memory; Run uses NOTHING and RunFiles forces NOTHING under -filenames; (R2) who may modify the file system: in the library only files.WriterFromFile opens for writing (called only by searchReplace) and RunFiles renames under processFilenames; nothing reachable from searchFind can write; (R3) the writer is opened with create|truncate|write; (R4) cursor pairing in the splice loop: the gap and the replacement are written at consecutive positions, the cursors advance by gap+len(replacement) and gap+len(match) on every path around the loop, the tail is copied, the writer is closed. " +
+			"Does NOT decide the arithmetic itself (that gaps and values tile the input), short reads, or MemoryStream/OS write semantics.",
+		Assumptions: commonAssumptions,
+		Rules: []RuleFn{
+			{Name: "C06.R1", Run: func(c *Ctx) { ruleModeTable(c, "C06.R1") }},
+			{Name: "C06.R2", Run: func(c *Ctx) { ruleWhoWritesFiles(c, "C06.R2") }},
+			{Name: "C06.R4", Run: func(c *Ctx) { ruleSpliceLoop(c, "C06.R4") }},
+		},
+	})
+	register(&Property{
+		ID:          "C07",
+		Explanation: "The equivalence of buffered file reading with in-memory reading over all sizes and seek/read histories is a property of the window arithmetic in BufferedFile.Seek/Read and is NOT decided. Decided: (R1) no read in package files turns end of input into a panic (io.EOF excluded, or at least one byte requested and available); (R2) each Reader constructor sets size to the length of what its contents deliver; (R3) Reader.Read is called only after a Seek on the same reader (axiom A5) and BufferedFile's methods never use the OS file cursor, only positioned ReadAt.",
+		Assumptions: commonAssumptions,
+		Rules: []RuleFn{
+			{Name: "C07.R1", Run: func(c *Ctx) { ruleEOFNotAnError(c, "C07.R1") }},
+			{Name: "C07.R2", Run: func(c *Ctx) { ruleSizeAgreement(c, "C07.R2") }},
+			{Name: "C07.R3", Run: func(c *Ctx) { ruleOneAccessPath(c, "C07.R3") }},
+		},
+	})
+	register(&Property{
+		ID: "C09",
+		Explanation: "Decides, for everything reachable from Run/RunFiles, an inventory of panic-capable constructs each discharged by a named rule: (R1) explicit panics - fall-out of complete type switches / exhaustive enum switches, the evaluator's SHOULDN'T GET HERE panics by R2, or a frozen trusted table (VM invariants, operating-system failures); (R2) every operand-type cell the checker accepts has a non-panicking evaluator leaf; (R3) the flow-insensitive checker binds variable types monotonically; (R4) integer division has a tested divisor; (R5) instruction fetch is dominated by a program-counter bound test; (R6) reads at end of input; (R7) type assertions; (R8) results of Peek/Pop/Index are tested before dereference; (R9) readers are closed by the function that opened them and do not outlive their iteration. " +
+			"Does NOT decide index safety that depends on VM invariants (branch lists non-empty, capture offsets inside the match, jump targets in range) nor process loops that never end.",
+		Assumptions: commonAssumptions,
+		Rules: []RuleFn{
+			{Name: "C09.R1", Run: func(c *Ctx) {
+				special := map[string]func() (bool, string){
+					"engine.executeBinaryExpr": func() (bool, string) {
+						t := c.extractCheckerTables()
+						if t.err != "" {
+							return false, "cannot extract the checker table: " + t.err
+						}
+						for _, k := range sortedKeys(t.binary) {
+							if t.binary[k] == "PTERROR" {
+								continue
+							}
+							p := strings.Split(k, "|")
+							if p[0] == "PTERROR" || p[2] == "PTERROR" {
+								continue
+							}
+							if cell := c.evalBinaryCell(p[1], p[0], p[2]); cell.Panic || cell.Err != "" {
+								return false, "reachable for the accepted combination " + k
+							}
+						}
+						return true, "unreachable for every operand-type combination the checker accepts (C09.R2), provided variables keep their checked type (C09.R3)"
+					},
+				}
+				rulePanicInventory(c, "C09.R1", c.runRoots(), []string{"engine", "files", "ds"}, map[string]string{
+					"(*engine.SearchEngineState).INCLOOPSTACK":       "loop stack non-empty: follows from well-bracketed StartLoop/StopLoop bytecode (value-level VM invariant)",
+					"(*engine.SearchEngineState).GETITERATIONSTEP":   "loop stack non-empty (VM invariant)",
+					"(*engine.SearchEngineState).CHECKZEROMATCHLOOP": "loop stack non-empty (VM invariant)",
+					"(*engine.SearchEngineState).POPLOOPSTACK":       "loop stack non-empty (VM invariant)",
+					"(*engine.SearchEngineState).ENDVAR":             "variable records are pushed and popped by bracketed StartVarDec/EndVarDec instructions (VM invariant)",
+					"(*engine.SearchEngineState).RETURN":             "call stack non-empty inside a subroutine (VM invariant)",
+					"engine.findMatches":                             "the byte at fileOffset exists because the loop leaves when fileOffset >= reader.Size() (value-level)",
+					"engine.matchEndSubroutine":                      "call stack non-empty inside a subroutine (VM invariant)",
+					"(ds.Optional[string]).GetValue[string]":         "callers test HasValue() first (C17.R2)",
+					"files.ReaderFromFileToMemory":                   "operating-system failure (outside the property's quantifier: programs x contents)",
+					"files.ReaderFromFile":                           "operating-system failure",
+					"(*files.Reader).Seek":                           "operating-system failure / negative offset never requested",
+					"(*files.Reader).Close":                          "operating-system failure",
+					"files.WriterFromFile":                           "operating-system failure",
+					"(*files.Writer).WriteAt":                        "operating-system failure",
+					"(*files.Writer).Close":                          "operating-system failure",
+					"engine.RunFiles":                                "operating-system failure (os.Stat / os.ReadDir on a listed file)",
+					"files.NewBufferedFile":                          "operating-system failure; end of input is handled by C09.R6",
+					"(*files.Reader).Read":                           "read failure other than end of input; end of input is C09.R6",
+					"(*files.Reader).ReadAt":                         "read failure other than end of input; end of input is C09.R6",
+				}, 20, special)
+			}},
+			{Name: "C09.R2", Run: func(c *Ctx) { ruleCheckerSubsetEvaluator(c, "C09.R2", nil) }},
+			{Name: "C09.R3", Run: func(c *Ctx) { ruleMonotoneTypes(c, "C09.R3") }},
+			{Name: "C09.R4", Run: func(c *Ctx) { ruleDivision(c, "C09.R4") }},
+			{Name: "C09.R5", Run: func(c *Ctx) { ruleInstructionFetch(c, "C09.R5") }},
+			{Name: "C09.R6", Run: func(c *Ctx) { ruleEOFNotAnError(c, "C09.R6") }},
+			{Name: "C09.R7", Run: func(c *Ctx) { ruleTypeAssertions(c, "C09.R7", []string{"engine", "files"}, 1) }},
+			{Name: "C09.R8", Run: func(c *Ctx) {
+				ruleStackAPI(c, "C09.R8", map[string]string{
+					"(*engine.SearchEngineState).ENDVAR":         "variable records are pushed and popped by bracketed StartVarDec/EndVarDec instructions (VM invariant)",
+					"engine.matchEndSubroutine":                  "call stack non-empty inside a subroutine (VM invariant)",
+					"(*engine.SearchEngineState).INSERTVARIABLE": "the index runs from Size()-1 down to 0 (loop bounds), so Index never returns nil",
+					"(*ast.Lexer).get_position":                  "the position stack is created with one element and unread never pops the last one",
+					"(*ast.Lexer).read":                          "the position stack is never empty (see get_position)",
+					"(*ast.Lexer).getNextToken":                  "the position stack is never empty (see get_position)",
+					"(*ast.Lexer).unread":                        "guarded by `amount >= s.position.Size()`",
+				})
+			}},
+			{Name: "C09.R9", Run: func(c *Ctx) { ruleReaderLifetime(c, "C09.R9") }},
+		},
+	})
+	register(&Property{
+		ID:          "C20",
+		Explanation: "Correctness of the star matcher (pathMatches, SplitKeep, Window) is a string-algorithm property and is NOT decided; its known first-occurrence weakness is invisible to a sound structural rule. Decided (`none extra ... directories are never listed`): (R1) every path that GetFileList itself adds to its result is control-dependent on `not a directory` and on pathMatches against the pattern segment, and every recursive call is made on the shrunk pattern, so recursion depth is bounded by the number of segments.",
+		Assumptions: commonAssumptions,
+		Rules: []RuleFn{
+			{Name: "C20.R1", Run: func(c *Ctx) { ruleFileListGuards(c, "C20.R1") }},
+		},
+	})
+	register(&Property{
 		ID: "C10",
 		Explanation: "Termination itself is NOT decided. Decided are the mechanisms that make it true: (R1) in matchStartLoop the zero-width check dominates every start of a further iteration, and on a zero-width iteration the only effect is BACKTRACK and return; the recorded start is only ever len(currentMatch); (R2) matchEndNotIn advances only when the offset changed across CONSUME; (R3) every instruction handler and every MATCH* primitive moves the state (NEXT/JUMP/RETURN/BACKTRACK/FAIL) on every returning path (must-analysis over the CFG, greatest fixpoint over the primitives); (R4) the outer scan advances (scan discipline); (R5) loop identity compares loop id and call depth. " +
 			"Does NOT decide weakened-but-present guards, the inner loops of MATCHWHOLELINE/WORD, nor recursion that consumes nothing (excluded by the property).",
@@ -176,7 +276,7 @@ func init() {
 		},
 	})
 	register(&Property{
-		ID: "C14",
+		ID:          "C14",
 		Explanation: "Equivalence with a regex engine is NOT decided (value-level; it is C01 plus this). Decided: the regex-specific translation tables and the numbering order - (R1) the quantifier table of parse_regexp_quantifier, extracted from the AstLoop literals and the character tests that control them (* + ? {m} {m,} {m,n}), and that the lazy marker applies to every quantifier; (R2) the atom table (^ $ . \\d \\D \\s \\S); (R3) a capturing group reads its number before its body is parsed (numbering by opening parenthesis).",
 		Assumptions: commonAssumptions,
 		Rules: []RuleFn{
